@@ -152,14 +152,14 @@ def corr_similarity(ctx, B):
         B.add("orbits", dict(op="apps.orbits", n=n), dict(imp=got, rec=got))
         ctx.count("orbits", ("orbits", n), n >= 2)
         K.chk_orbits(ctx, dict(n=n))
-    for _ in range(ctx.n(300, 3000)):
+    for _ in range(ctx.n(1200, 6000)):
         s = rand_sample(rng)
         m = rng.randint(0, 5)
         B.add("sample_to_orbit", dict(op="apps.sampleToOrbit", s=s), ints(similarity.sample_to_orbit(list(s))))
         B.add("sample_to_event", dict(op="apps.sampleToEvent", s=s, m=m), similarity.sample_to_event(list(s), m))
         K.chk_sample_conv(ctx, dict(s=s, m=m))
         ctx.count("sample", ("sample", s, m), sum(s) >= 2, sample=dict(s=s, m=m))
-    for i in range(ctx.n(500, 5000)):
+    for i in range(ctx.n(2500, 12000)):
         n = rng.randint(1, rng.choice([4, 8, 12, 25]))
         orbit = rand_partition(rng, n)
         r = rng.random()
@@ -179,7 +179,7 @@ def corr_similarity(ctx, B):
     # the documented probes, always
     for orbit, modes in (([2, 1, 1], 25), ([2, 1], 1), ([1, 1], 171), ([3, 2, 1, 1], 200), ([1], 0), ([5, 5, 5, 4, 1], 30)):
         K.chk_orbit_card(ctx, dict(orbit=orbit, modes=modes))
-    for _ in range(ctx.n(60, 600)):
+    for _ in range(ctx.n(250, 1500)):
         n = rng.randint(0, rng.choice([5, 9, 14]))
         m = rng.randint(1, max(1, n))
         modes = rng.choice([rng.randint(1, 12), rng.randint(1, 60), rng.randint(150, 200)])
@@ -190,7 +190,7 @@ def corr_similarity(ctx, B):
         K.chk_event_card(ctx, case)
         ctx.count("event_card", ("ec", n, m, modes), n >= 2, sample=case)
     # the specification object of the cardinality theorems against brute force
-    for _ in range(ctx.n(60, 400)):
+    for _ in range(ctx.n(150, 600)):
         s = [rng.randint(0, 3) for _ in range(rng.randint(0, 7))]
         B.add("dperms-vs-bruteforce", dict(op="apps.dpermsLen", s=s), len(set(itertools.permutations(s))))
 
@@ -275,7 +275,7 @@ def corr_graph_case(ctx, B, gd, rng, heavy=True):
 def corr_update_list(ctx, B):
     from strawberryfields.apps import subgraph
     rng = ctx.rng
-    for _ in range(ctx.n(60, 500)):
+    for _ in range(ctx.n(300, 2000)):
         mc = rng.randint(1, 4)
         pool = {}
         items = []
@@ -305,7 +305,7 @@ def corr_update_list(ctx, B):
 def corr_sample(ctx, B):
     from strawberryfields.apps import sample
     rng = ctx.rng
-    for i in range(ctx.n(60, 500)):
+    for i in range(ctx.n(300, 2000)):
         n = rng.randint(1, 9)
         gd = K.rand_graph(rng, n, labels=rng.choice(["range", "range", "shuffled", "sparse"]))
         samples = [[rng.choice([0, 0, 1, 1, 2]) for _ in range(n)] for _ in range(rng.randint(0, 5))]
@@ -323,7 +323,7 @@ def corr_sample(ctx, B):
 def oracle_big(ctx):
     """oracle only: larger graphs, shuffled insertion order, sparse labels (orders left to set iteration)"""
     rng = ctx.rng
-    for i in range(ctx.n(150, 1500)):
+    for i in range(ctx.n(900, 6000)):
         n = rng.randint(2, ctx.n(11, 14) if ctx.boost == 1 else 11)
         gd = K.rand_graph(rng, n, labels=rng.choice(["range", "shuffled", "sparse"]))
         lab = "range" if gd["nodes"] == sorted(gd["nodes"]) else "relabelled"
@@ -369,7 +369,7 @@ def run(ctx, sf):
             for gd in K.all_graphs(n):
                 corr_graph_case(ctx, B, gd, rng, heavy=(n >= 2))
                 ctx.tally("exhaustive-graphs")
-    for i in range(ctx.n(350, 3000)):
+    for i in range(ctx.n(1800, 9000)):
         n = rng.choice([1, 2, 3, 4, 4, 5, 5, 6, 6, 7, 8])
         corr_graph_case(ctx, B, K.rand_graph(rng, n, "range"), rng)
     corr_update_list(ctx, B)
